@@ -215,6 +215,12 @@ class Rig:
         return self.entries(confs[0].propertyValue.cast_out(ListOf(COVSubscription)))
 
     # ------------------------------------------------------------ oracles
+    @staticmethod
+    def retimed(rec):
+        """the record stems from a renewal that switched between a finite and an indefinite lifetime (only used
+        to name a wrong time-remaining precisely)"""
+        return rec.renewed and rec.prev_indefinite != (rec.expiry is None)
+
     def check_note(self, slot, k, apdu, where):
         """what every notification to a live subscription must carry (values are checked by the caller)"""
         d, ref = self.d, self.ref
@@ -230,8 +236,8 @@ class Rig:
             want = ref.remaining(slot)
             got = apdu.timeRemaining
             if got != want:
-                self.flag("renewal-lifetime-not-applied" if rec.renewed else "notified-time-remaining",
-                       where=where, got=got, want=want, was_indefinite=rec.prev_indefinite)
+                self.flag("renewal-lifetime-not-applied" if self.retimed(rec) else "notified-time-remaining",
+                          where=where, got=got, want=want, was_indefinite=rec.prev_indefinite)
 
     def check_subscribe_round(self, target, got, where):
         """after a (re-)subscription: exactly one notification, to the subscriber, with the current values"""
@@ -339,8 +345,8 @@ class Rig:
                        where=where, requested_confirmed=rec.confirmed, listed=conf)
             want = ref.remaining(slot)
             if rem != want:
-                self.flag("renewal-lifetime-not-applied" if rec.renewed else "listing-time-remaining",
-                       where=where, listed=rem, want=want, negative=rem < 0, was_indefinite=rec.prev_indefinite)
+                self.flag("renewal-lifetime-not-applied" if self.retimed(rec) else "listing-time-remaining",
+                          where=where, listed=rem, want=want, negative=rem < 0, was_indefinite=rec.prev_indefinite)
         for slot in self.slots:
             if ref.status(slot) == LIVE and slot not in seen:
                 self.flag("live-subscription-not-listed", where=where, slot=slot)
@@ -434,21 +440,22 @@ class Rig:
 
 @meta(bounds="one COV server stack (ReadProperty + ChangeOfValue services) with ONE monitored object of the instance's "
              "family: integer value (COV increment symbolic 1..4 unless fixed by the instance, present values symbolic "
-             "-9..9: exact integer arithmetic), analog value (increment 0.5, values from {0, 0.25, 0.5, 1}), pulse "
-             "converter (increment 2, values from {0, 1, 2, 4}, covPeriod 0), binary value (both states), multi-state "
-             "value (states symbolic 1..3); subscription slots (subscriber station, process id) as listed by the "
-             "instance (1..2 stations quick, 3 thorough; two stations sharing a process id, one station with two); "
-             "a timeline whose length and per-step opcode alphabet is the instance's `plan` (quick <= 3 steps, "
-             "thorough <= 5): S = SubscribeCOV from a symbolic slot, confirmed flag symbolic, lifetime symbolic "
-             "0..120 s (absent as well in the `absent` instances) - on a live slot this is a renewal; C = "
-             "cancellation from a symbolic slot; W = local write of a symbolic present value; F = local write of "
-             "status flags (symbolic choice of 2..3 vectors); B = two writes (each W or F, symbolic) in one instant "
-             "without the loop in between; A = advance the clock by a symbolic whole number of seconds 0..130 and run "
-             "the loop (the lifetime is a one-shot timer, so the solver partitions (lifetime, seconds) into before / "
-             "at / after expiry: no bucketing needed).  After every step the loop runs for the current instant and "
-             "activeCovSubscriptions is read at object level; every timeline closes with: a far jump of the present "
-             "value, 121 s of waiting (every finite lifetime over), a second far jump, the list read again (over the "
-             "wire too in the `wire` instances)",
+             "1..19, start 10 - in the `iv-signed` instances -9..9, start 0: exact integer arithmetic), analog value "
+             "(increment 0.5, values from {0, 0.25, 0.5, 1}), pulse converter (increment 2, values from {0, 1, 2, 4}, "
+             "covPeriod 0), binary value (both states), multi-state value (states symbolic 1..3); every object starts "
+             "with status flags 0000; subscription slots (subscriber station, process id) as listed by the instance "
+             "(1..2 stations quick, 3 thorough; two stations sharing a process id, one station with two); a timeline "
+             "whose length and per-step opcode alphabet is the instance's `plan` (quick <= 3 steps, thorough <= 5): "
+             "S = SubscribeCOV from a symbolic slot, confirmed flag symbolic, lifetime symbolic 0..120 s (absent as "
+             "well in the `absent` instances) - on a live slot this is a renewal; s = the same with unconfirmed / "
+             "indefinite fixed (value-centred timelines); C = cancellation from a symbolic slot; W = local write of a "
+             "symbolic present value; F = local write of status flags (symbolic choice of 2..3 vectors); B = two "
+             "writes (each W or F, symbolic) in one instant without the loop in between; A = advance the clock by a "
+             "symbolic whole number of seconds 0..130 and run the loop (the lifetime is a one-shot timer, so the "
+             "solver partitions (lifetime, seconds) into before / at / after expiry by itself: no bucketing needed).  "
+             "After every step the loop runs for the current instant and activeCovSubscriptions is read at object "
+             "level; every timeline closes with: a far jump of the present value, 121 s of waiting (every finite "
+             "lifetime over), a second far jump, the list read again (over the wire too in the `wire` instances)",
       outside="timelines longer than the plan; opcode combinations not listed by the instances; general binary32 "
               "values (analog values are small dyadic rationals so that real arithmetic equals binary32/64 "
               "arithmetic); sub-second instants; more than one monitored object at a time; SubscribeCOVProperty; "
